@@ -26,16 +26,24 @@ open Molli.Model.Ensemble Molli.Lemmas.Ensemble
 /-- "After any sequence of constructions, appends, extends and collective transformations [and writes,
 reads, slices, dumps, iterations], coordinates, partial charges and weights all describe the same
 number of conformers and atoms": `Rect` is an invariant of every operation, hence of every history. -/
-theorem rect_history (ops : List Op) (w : World) (hr : Rect w.ens) : Rect (run .repaired w ops).1.ens := by
+theorem rect_history (ops : List Op) (w : World) (hr : Rect w.ens) (ho : ∀ e ∈ w.others, Rect e) :
+    Rect (run .repaired w ops).1.ens ∧ ∀ e ∈ (run .repaired w ops).1.others, Rect e := by
   induction ops generalizing w with
-  | nil => exact hr
+  | nil => exact ⟨hr, ho⟩
   | cons o os ih =>
     simp only [run]
-    exact ih _ (rect_step w o hr)
+    refine ih _ (rect_step w o hr ho) ?_
+    intro e he
+    rcases others_step w o e he with h | rfl
+    · exact ho e h
+    · exact hr
 
-/-- in particular for every history that starts with nothing -/
-theorem rect_from_start (ops : List Op) : (run .repaired initWorld ops).1.ens.rect = true :=
-  (rect_iff _).mpr (rect_history ops initWorld (rect_alloc 0 0))
+/-- in particular for every history that starts with nothing: the current ensemble and every other live ensemble
+of the history (sources of copies, ensembles switched away from) are rectangular -/
+theorem rect_from_start (ops : List Op) :
+    (run .repaired initWorld ops).1.ens.rect = true ∧ ∀ e ∈ (run .repaired initWorld ops).1.others, e.rect = true := by
+  have h := rect_history ops initWorld (rect_alloc 0 0) (by intro e he; cases he)
+  exact ⟨(rect_iff _).mpr h.1, fun e he => (rect_iff _).mpr (h.2 e he)⟩
 
 /-- each construction yields a rectangular ensemble, whatever was there before -/
 theorem rect_constructions (w : World) :
@@ -93,6 +101,21 @@ theorem failed_op_frame (v : Variant) (w : World) (op : Op) (h : (step v w op).2
     · rename_i hc; simp [hc] at h
   | loop => simp [step] at h
   | nestedLoop => simp [step] at h
+  | ctorCopyKw => simp [step] at h
+  | swap k => simp only [step] at h ⊢; split <;> first | rfl | simp_all
+  | iterNextKeep k =>
+    simp only [step] at h ⊢
+    split
+    · rfl
+    · rename_i hc; simp [hc] at h
+  | loopKeep => simp [step] at h
+  | readKept j => simp only [step] at h ⊢; (repeat' split) <;> rfl
+  | writeKept j c =>
+    simp only [step] at h ⊢
+    cases hj : w.kept[j]? with
+    | none => rfl
+    | some i => rw [hj] at h; exact upd_err _ _ h
+  | dumpKept j => simp only [step] at h ⊢; (repeat' split) <;> rfl
 
 /-! ### conformers are live views of their row -/
 
@@ -199,9 +222,9 @@ theorem dump_total (e : Ens) (hr : Rect e) (i : Nat) (hi : i < e.nC) :
   simp [hq]
 
 /-- … and so does serialising the whole ensemble, after every history -/
-theorem serialise_total (ops : List Op) (w : World) (hr : Rect w.ens) :
+theorem serialise_total (ops : List Op) (w : World) (hr : Rect w.ens) (ho : ∀ e ∈ w.others, Rect e) :
     (serialise (run .repaired w ops).1.ens).isSome = true := by
-  have := (rect_iff _).mpr (rect_history ops w hr)
+  have := (rect_iff _).mpr (rect_history ops w hr ho).1
   simp [serialise, this]
 
 /-- the record handed to the library codec (property C01) by a rectangular ensemble is in C01's domain:
@@ -235,16 +258,18 @@ theorem nested_iter_count (w : World) (l : List (Nat × Nat)) (h : (step .repair
   rw [length_flatMap_const _ _ w.ens.nC (by intro x; simp), List.length_range]
 
 def Op.isCtor : Op → Bool
-  | .ctorAtoms _ _ | .ctorMol _ _ | .ctorMols _ | .ctorCopy => true
+  | .ctorAtoms _ _ | .ctorMol _ _ | .ctorMols _ | .ctorCopy | .ctorCopyKw | .swap _ => true
   | _ => false
 
 def isNextOf (k : Nat) : Op → Bool
   | .iterNext k' => k' == k
+  | .iterNextKeep k' => k' == k
   | _ => false
 
 /-- what the `next()` calls on iterator `k` returned during a history -/
 def yieldOf (k : Nat) : Op × Out → Option Nat
   | (.iterNext k', .yielded (some i)) => if k' = k then some i else none
+  | (.iterNextKeep k', .yielded (some i)) => if k' = k then some i else none
   | _ => none
 
 def yieldsOf (k : Nat) (ops : List Op) (outs : List Out) : List Nat := (ops.zip outs).filterMap (yieldOf k)
@@ -266,6 +291,26 @@ theorem step_iter_frame (w : World) (op : Op) (k : Nat) (it : Iter) (hk : w.iter
     split
     · exact hk
     · rw [iterNext_frame w k' k hne]; exact hk
+  case iterNextKeep k' =>
+    have hne : k ≠ k' := by
+      intro h; subst h; simp [isNextOf] at hn
+    split
+    · exact hk
+    · show (iterNext .repaired w k').1.iters[k]? = some it
+      rw [iterNext_frame w k' k hne]; exact hk
+  case readKept j => (repeat' split) <;> exact hk
+  case dumpKept j => (repeat' split) <;> exact hk
+  case writeKept j c =>
+    split
+    · rw [(upd_ens w _).2.1]; exact hk
+    · exact hk
+
+theorem step_iterNextKeep_valid (w : World) (k : Nat) (h : k < w.iters.length) :
+    step .repaired w (.iterNextKeep k) =
+      ({ (iterNext .repaired w k).1 with kept := (iterNext .repaired w k).1.kept ++ (iterNext .repaired w k).2.toList },
+       .yielded (iterNext .repaired w k).2) := by
+  simp only [step]
+  rw [if_neg (by intro ⟨_, h'⟩; omega)]
 
 theorem step_iterNext_valid (w : World) (k : Nat) (h : k < w.iters.length) :
     step .repaired w (.iterNext k) = ((iterNext .repaired w k).1, .yielded (iterNext .repaired w k).2) := by
@@ -301,32 +346,53 @@ theorem concurrent_iteration (ops : List Op) (w : World) (k p n : Nat) (hk : w.i
     by_cases hn : isNextOf k o = true
     · -- a `next()` on iterator `k`
       cases o <;> simp only [isNextOf, beq_iff_eq, Bool.false_eq_true] at hn
-      rename_i k'
-      subst hn
-      have hlt := get_lt_of_some _ _ _ hk
-      rw [step_iterNext_valid w k' hlt]
-      simp only [List.countP_cons, isNextOf, beq_self_eq_true, if_true]
-      by_cases h : p < n
-      · rw [iterNext_repaired_lt w k' p n hk h]
-        simp only [yieldOf, if_true]
-        have hk' : ({ w with iters := w.iters.set k' ⟨p + 1, n⟩ } : World).iters[k']? = some ⟨p + 1, n⟩ := by
-          simp [List.getElem?_set_self hlt]
-        rw [ih _ (p + 1) hk' hno']
-        have e : min (n - p) (List.countP (isNextOf k') os + 1) = min (n - (p + 1)) (List.countP (isNextOf k') os) + 1 := by omega
-        rw [e, List.range'_succ]
-      · rw [iterNext_repaired_ge w k' p n hk h]
-        simp only [yieldOf]
-        rw [ih w p hk hno']
-        have e1 : n - p = 0 := by omega
-        simp [e1]
+      · rename_i k'
+        subst hn
+        have hlt := get_lt_of_some _ _ _ hk
+        rw [step_iterNext_valid w k' hlt]
+        simp only [List.countP_cons, isNextOf, beq_self_eq_true, if_true]
+        by_cases h : p < n
+        · rw [iterNext_repaired_lt w k' p n hk h]
+          simp only [yieldOf, if_true]
+          have hk' : ({ w with iters := w.iters.set k' ⟨p + 1, n⟩ } : World).iters[k']? = some ⟨p + 1, n⟩ := by
+            simp [List.getElem?_set_self hlt]
+          rw [ih _ (p + 1) hk' hno']
+          have e : min (n - p) (List.countP (isNextOf k') os + 1) = min (n - (p + 1)) (List.countP (isNextOf k') os) + 1 := by omega
+          rw [e, List.range'_succ]
+        · rw [iterNext_repaired_ge w k' p n hk h]
+          simp only [yieldOf]
+          rw [ih w p hk hno']
+          have e1 : n - p = 0 := by omega
+          simp [e1]
+      · rename_i k'
+        subst hn
+        have hlt := get_lt_of_some _ _ _ hk
+        rw [step_iterNextKeep_valid w k' hlt]
+        simp only [List.countP_cons, isNextOf, beq_self_eq_true, if_true]
+        by_cases h : p < n
+        · rw [iterNext_repaired_lt w k' p n hk h]
+          simp only [yieldOf, if_true]
+          have hk' : ({ ({ w with iters := w.iters.set k' ⟨p + 1, n⟩ } : World) with
+                kept := w.kept ++ (some p).toList } : World).iters[k']? = some ⟨p + 1, n⟩ := by
+            simp [List.getElem?_set_self hlt]
+          rw [ih _ (p + 1) hk' hno']
+          have e : min (n - p) (List.countP (isNextOf k') os + 1) = min (n - (p + 1)) (List.countP (isNextOf k') os) + 1 := by omega
+          rw [e, List.range'_succ]
+        · rw [iterNext_repaired_ge w k' p n hk h]
+          simp only [yieldOf]
+          have hk' : ({ w with kept := w.kept ++ (none : Option Nat).toList } : World).iters[k']? = some ⟨p, n⟩ := hk
+          rw [ih _ p hk' hno']
+          have e1 : n - p = 0 := by omega
+          simp [e1]
     · -- anything else
       have hn' : isNextOf k o = false := by simpa using hn
       have hfr := step_iter_frame w o k ⟨p, n⟩ hk hco hn'
       have hy : yieldOf k (o, (step .repaired w o).2) = none := by
         cases o <;> simp only [yieldOf]
-        rename_i k'
-        have hne : k' ≠ k := by intro h; subst h; simp [isNextOf] at hn'
-        split <;> simp_all
+        all_goals
+          rename_i k'
+          have hne : k' ≠ k := by intro h; subst h; simp [isNextOf] at hn'
+          split <;> simp_all
       rw [hy]
       simp only
       rw [ih (step .repaired w o).1 p hfr hno', List.countP_cons, hn']
@@ -338,6 +404,131 @@ example : (run .repaired initWorld
      .iterNext 0, .loop, .iterNext 1, .iterNext 0, .iterNext 0]).2 =
     [.ok, .handle 0, .handle 1, .yielded (some 0), .yielded (some 0), .ok, .yielded (some 1), .idxs [0, 1, 2, 3],
      .yielded (some 1), .yielded (some 2), .yielded none] := by decide
+
+/-! ### several live ensembles in one history: nothing else changes -/
+
+/-- "reads and writes go through to the ensemble, NOTHING ELSE CHANGES" across objects: an operation that is not
+itself a copy construction or a switch to another ensemble — every write through a conformer, append, extend,
+transformation, setter, iteration — leaves every other live ensemble (sources of copies, copies made earlier)
+exactly as it was. -/
+theorem others_untouched (v : Variant) (w : World) (op : Op) (h : touchesOthers op = false) :
+    (step v w op).1.others = w.others := others_frame v w op h
+
+theorem history_leaves_others (ops : List Op) (w : World) (h : ∀ op ∈ ops, touchesOthers op = false) :
+    (run .repaired w ops).1.others = w.others := by
+  induction ops generalizing w with
+  | nil => rfl
+  | cons o os ih =>
+    simp only [run]
+    rw [ih _ (fun op hop => h op (List.mem_cons_of_mem _ hop)), others_frame _ w o (h o List.mem_cons_self)]
+
+/-- `ConformerEnsemble(ens)` (with or without keywords) copies: the new ensemble has the source's arrays, the source stays
+alive, and whatever history is then applied to the COPY, the source is what it was -/
+theorem source_untouched_by_copy (w : World) (ops : List Op) (h : ∀ op ∈ ops, touchesOthers op = false) :
+    (step .repaired w .ctorCopy).1.ens = w.ens ∧ (step .repaired w .ctorCopyKw).1 = (step .repaired w .ctorCopy).1 ∧
+    (run .repaired (step .repaired w .ctorCopy).1 ops).1.others = w.ens :: w.others := by
+  refine ⟨rfl, rfl, ?_⟩
+  rw [history_leaves_others ops _ h]
+  rfl
+
+/-- … and whatever is applied to the SOURCE afterwards (switch back to it: `swap 0`), the copy is what it was -/
+theorem copy_untouched_by_source (w : World) (ops : List Op) (h : ∀ op ∈ ops, touchesOthers op = false) :
+    let w1 := (step .repaired (step .repaired w .ctorCopy).1 (.swap 0)).1
+    w1.ens = w.ens ∧ (run .repaired w1 ops).1.others = w.ens :: w.others := by
+  refine ⟨rfl, ?_⟩
+  rw [history_leaves_others ops _ h]
+  rfl
+
+example : (run .repaired initWorld
+    [.ctorAtoms 1 2, .ctorCopy, .writeCharges 0 [some 5], .swap 0, .read 0, .writeCoords 1 [[some 1, some 2, some 3]],
+     .swap 0, .read 0, .read 1]).2 =
+    [.ok, .ok, .ok, .ok, .view ⟨[[none, none, none]], [some 0]⟩, .ok, .ok, .view ⟨[[none, none, none]], [some 5]⟩,
+     .view ⟨[[none, none, none]], [some 0]⟩] := by decide
+
+/-! ### conformer objects kept after their iteration moved on -/
+
+/-- a kept conformer never moves: no operation short of a new construction changes the row a kept conformer object
+stands for; the list of kept objects only grows -/
+theorem kept_grows (w : World) (op : Op) (h : Op.isCtor op = false) : w.kept <+: (step .repaired w op).1.kept := by
+  cases op <;> simp only [Op.isCtor, Bool.true_eq_false] at h <;> simp only [step] <;>
+    first
+      | (rw [(upd_others w _).2]; exact List.prefix_refl _)
+      | exact List.prefix_refl _
+      | (split <;> first | exact List.prefix_refl _ | (rw [(upd_others w _).2]; exact List.prefix_refl _))
+      | skip
+  case iterNext k =>
+    split
+    · exact List.prefix_refl _
+    · rw [(iterNext_same .repaired w k).2.2]; exact List.prefix_refl _
+  case loop => show w.kept <+: (drain .repaired _ _ _).1.kept
+               rw [((iterNew_same .repaired w).trans (drain_same .repaired _ _ _)).2.2]; exact List.prefix_refl _
+  case nestedLoop => show w.kept <+: (nested .repaired w).1.kept
+                     rw [(nested_same .repaired w).2.2]; exact List.prefix_refl _
+  case iterNextKeep k =>
+    split
+    · exact List.prefix_refl _
+    · show w.kept <+: (iterNext .repaired w k).1.kept ++ _
+      rw [(iterNext_same .repaired w k).2.2]; exact List.prefix_append _ _
+  case loopKeep =>
+    show w.kept <+: (drain .repaired _ _ _).1.kept ++ _
+    rw [((iterNew_same .repaired w).trans (drain_same .repaired _ _ _)).2.2]; exact List.prefix_append _ _
+  case readKept j => (repeat' split) <;> exact List.prefix_refl _
+  case dumpKept j => (repeat' split) <;> exact List.prefix_refl _
+
+/-- over any history without a new construction: the `j`-th kept conformer is the same row index at the end -/
+theorem kept_fixed (ops : List Op) (w : World) (h : ∀ op ∈ ops, Op.isCtor op = false) (j i : Nat)
+    (hj : w.kept[j]? = some i) : (run .repaired w ops).1.kept[j]? = some i := by
+  induction ops generalizing w with
+  | nil => exact hj
+  | cons o os ih =>
+    simp only [run]
+    apply ih _ (fun op hop => h op (List.mem_cons_of_mem _ hop))
+    obtain ⟨t, ht⟩ := kept_grows w o (h o List.mem_cons_self)
+    rw [← ht, List.getElem?_append_left (get_lt_of_some _ _ _ hj)]
+    exact hj
+
+/-- `kept.append(next(it))`: the object kept is the conformer of the row that was yielded -/
+theorem yield_is_kept (w : World) (k : Nat) (hk : k < w.iters.length) :
+    (step .repaired w (.iterNextKeep k)).2 = .yielded (iterNext .repaired w k).2 ∧
+    (step .repaired w (.iterNextKeep k)).1.kept = w.kept ++ (iterNext .repaired w k).2.toList := by
+  rw [step_iterNextKeep_valid w k hk]
+  exact ⟨rfl, by simp [(iterNext_same .repaired w k).2.2]⟩
+
+/-- `kept += list(ens)`: one object per conformer, the `i`-th one standing for row `i` -/
+theorem loopKeep_spec (w : World) :
+    (step .repaired w .loopKeep).2 = .idxs (List.range w.ens.nC) ∧
+    (step .repaired w .loopKeep).1.kept = w.kept ++ List.range w.ens.nC := by
+  have h := loop_spec w
+  simp only [step] at h ⊢
+  injection h with h
+  refine ⟨by rw [h], ?_⟩
+  rw [h, ((iterNew_same .repaired w).trans (drain_same .repaired _ _ _)).2.2]
+
+/-- using a kept conformer later reads / writes / dumps the row it stands for in the CURRENT arrays -/
+theorem readKept_row (v : Variant) (w : World) (j : Nat) (x : View) (h : (step v w (.readKept j)).2 = .view x) :
+    ∃ i, w.kept[j]? = some i ∧ readConf w.ens i = some x := by
+  simp only [step] at h
+  split at h
+  · rename_i i hi
+    split at h
+    · rename_i y hy
+      injection h with h
+      subst h
+      exact ⟨i, hi, hy⟩
+    · cases h
+  · cases h
+
+theorem writeKept_row (v : Variant) (w : World) (j i : Nat) (c : Conf) (hj : w.kept[j]? = some i) :
+    step v w (.writeKept j c) = step v w (.writeCoords i c) := by
+  simp only [step, hj]
+
+example : (run .repaired initWorld
+    [.ctorMols [⟨[[some 1, some 1, some 1]], some [some 0]⟩, ⟨[[some 2, some 2, some 2]], some [some 0]⟩,
+                ⟨[[some 3, some 3, some 3]], some [some 0]⟩],
+     .iterNew, .iterNextKeep 0, .iterNextKeep 0, .readKept 0, .loopKeep, .iterNextKeep 0, .readKept 0, .readKept 2]).2 =
+    [.ok, .handle 0, .yielded (some 0), .yielded (some 1), .view ⟨[[some 1, some 1, some 1]], [some 0]⟩,
+     .idxs [0, 1, 2], .yielded (some 2), .view ⟨[[some 1, some 1, some 1]], [some 0]⟩,
+     .view ⟨[[some 1, some 1, some 1]], [some 0]⟩] := by decide
 
 /-! ### slices -/
 
